@@ -29,7 +29,8 @@ inductive MDoc where
   | and (xs : List MDoc)
   | or (xs : List MDoc)
   | all                       -- bson.M{}: the empty filter
-  | crash                     -- convertHasExpression panics (index out of range on `lims[i]`)
+  | nothing                   -- {"_id": {"$exists": false}}: matchNone, holds for no document
+  | crash                     -- convertHasExpression panics (not reachable since rangeLimits checks the length)
   deriving Repr, Inhabited
 
 /-! ### convertHasExpression -/
@@ -56,14 +57,15 @@ def convCond (k : String) (c : Cond) (a : JV) (n : Bool) : MDoc :=
 def junction (isAnd n : Bool) (xs : List MDoc) : MDoc :=
   if isAnd != n then .and xs else .or xs
 
-/-- INSIDE / OUTSIDE / BETWEEN: `lims, ok := val.([]interface{})`; not a list ⇒ the output stays
-    `bson.M{}`; otherwise `lims[0]`, `lims[1]` (panic when missing) are wrapped into two
-    conditions joined by And/Or and converted with the same `not`. -/
+/-- INSIDE / OUTSIDE / BETWEEN (after `fix: the mongo compiler treats a range condition whose value is
+    not a list of two bounds as matching nothing`): `rangeLimits` accepts exactly a two-element
+    list, whose bounds are wrapped into two conditions joined by And/Or and converted with the same
+    `not`; anything else is `matchNone(not)` — no document, or every document under a negation —
+    which is what the core engine answers. -/
 def convRange (k : String) (c1 c2 : Cond) (isAnd : Bool) (a : JV) (n : Bool) : MDoc :=
   match a with
-  | .arr (l :: u :: _) => junction isAnd n [convCond k c1 l n, convCond k c2 u n]
-  | .arr _ => .crash
-  | _ => .all
+  | .arr [l, u] => junction isAnd n [convCond k c1 l n, convCond k c2 u n]
+  | _ => if n then .all else .nothing
 
 mutual
   /-- convertHasExpression (after the `fix:` that flips `not` under a Not node). -/
@@ -162,6 +164,7 @@ mutual
     | .and xs => if xs.isEmpty then none else andOpt (mEvalList d xs)
     | .or xs => if xs.isEmpty then none else orOpt (mEvalList d xs)
     | .all => some true
+    | .nothing => some false
     | .crash => none
   def mEvalList (d : Elem) : List MDoc → List (Option Bool)
     | [] => []
@@ -241,10 +244,9 @@ def leafWhy (numOf : String → Option Int) (v : JV) (c : Cond) (a : JV) : Optio
   | .gt | .gte | .lt | .lte =>
     if isNumJ a && notNumText numOf v then none else some "C14-order-cast"
   | .inside | .outside | .between =>
-    if !isArr a then some "C14-range-args" else
     match a with
     | .arr [l, u] => if isNumJ l && isNumJ u && notNumText numOf v then none else some "C14-order-cast"
-    | _ => some "C14-range-args"
+    | _ => none   -- malformed bounds: both sides answer "no element" (range_args_malformed_agree)
   | .within | .without => if isArr a then none else some "C14-invalid-filter"
   | .contains => if v == a then some "C14-contains-scalar" else none
   | .unset => some "malformed"
